@@ -313,7 +313,9 @@ class FS:
             raise ARaise('EOFError (empty file)')
         if content[0] != kind:
             raise ARaise('UnpicklingError / JSONDecodeError (written by the other serializer)')
-        return content[1]
+        # deserialising builds a new object every time: two loads never hand out the same mutable object
+        self.n_loaded = getattr(self, 'n_loaded', 0) + 1
+        return AObj(('ext', 'Loaded'), {'of': content[1]}, tag=f'loaded#{self.n_loaded}:{getattr(content[1], "tag", content[1])}')
 
 
 def _store(ctx: Ctx) -> ClassInfo:
@@ -384,7 +386,12 @@ def _tok(tag: str) -> AObj:
 
 
 def _is(x, v) -> bool:
-    return x[0] == 'value' and x[1] is v
+    if x[0] != 'value':
+        return False
+    got = x[1]
+    if isinstance(got, AObj) and got.cls == ('ext', 'Loaded'):
+        got = got.attrs['of']
+    return got is v
 
 
 def _errs(ctx: Ctx) -> Tuple[set, set]:
@@ -447,6 +454,10 @@ def decide_laws(ctx: Ctx):
                     r = s.load(key)
                     if not _is(r, v):
                         laws['round trip'].append(f'{label}: load after save gives {r}')
+                    again = s.load(key)
+                    if _is(r, v) and _is(again, v) and again[1] is r[1]:
+                        laws['round trip'].append(f'{label}: two loads hand out the very same object (what the caller does to the first '
+                                                  f'is seen through the second; another store on the directory reads the intact file)')
                     r = s.save(key, v2, fmt2)
                     if not (r.startswith('raises') and r.split()[-1] in exists_names):
                         laws['write once'].append(f'{label}: a second save (format {fmt2}) {r}')
